@@ -129,6 +129,24 @@ fn role_of(kind: Kind) -> Option<&'static str> {
     })
 }
 
+/// (positions on the asset side, positions on the liability side) of `bank` among the accounts of an instruction
+fn side_counts(accts: &[(Pubkey, Option<MarginfiAccount>, Option<MarginfiAccount>)], bank: &Pubkey) -> (usize, usize) {
+    let mut a = 0;
+    let mut l = 0;
+    for (_, p, _) in accts {
+        if let Some(p) = p {
+            for b in p.lending_account.balances.iter().filter(|b| b.active != 0 && &b.bank_pk == bank) {
+                if w_(&b.liability_shares) >= one() {
+                    l += 1;
+                } else if w_(&b.asset_shares) >= one() {
+                    a += 1;
+                }
+            }
+        }
+    }
+    (a, l)
+}
+
 impl Mon {
     pub fn admin_on_ix(&mut self, w: &World, v: &IxView, info: &IxInfo) {
         if self.r.is("C12") {
@@ -430,7 +448,7 @@ impl Mon {
             }
         }
         let _ = (w, v);
-        let financial = matches!(info.kind, Kind::Deposit | Kind::Withdraw | Kind::Borrow | Kind::Repay | Kind::Liquidate | Kind::HandleBankruptcy);
+        let financial = matches!(info.kind, Kind::Deposit | Kind::Withdraw | Kind::Borrow | Kind::Repay | Kind::Liquidate | Kind::HandleBankruptcy | Kind::KaminoDeposit | Kind::KaminoWithdraw | Kind::SolendDeposit | Kind::SolendWithdraw);
         if !financial {
             return;
         }
@@ -447,7 +465,7 @@ impl Mon {
             let bad = match st {
                 BankOperationalState::Paused => true,
                 BankOperationalState::KilledByBankruptcy => true,
-                BankOperationalState::ReduceOnly => matches!(info.kind, Kind::Deposit | Kind::Borrow),
+                BankOperationalState::ReduceOnly => matches!(info.kind, Kind::Deposit | Kind::Borrow | Kind::KaminoDeposit | Kind::SolendDeposit),
                 BankOperationalState::Operational => false,
             };
             if bad {
@@ -735,6 +753,8 @@ impl Mon {
             // credits to positions in this instruction
             let mut credited = zero();
             let mut bound = zero();
+            let mut low_bound = zero();
+            let mut low_n = 0u32;
             let mut closed_any = false;
             for (_ak, ap, aq) in &info.accts {
                 if let (Some(p), Some(q)) = (ap, aq) {
@@ -758,6 +778,23 @@ impl Mon {
                             let (qa, ql) = (w_(&x.asset_shares) * w_(&bq.asset_share_value), w_(&x.liability_shares) * w_(&bq.liability_share_value));
                             let amt = rmax(&qa, &ql);
                             bound += amt * ru(dt as u128) * ru(bq.emissions_rate as u128) / (ri(31_536_000) * pow10(bq.mint_decimals as u32));
+                            // lower bound: a position whose emission clock was moved to now was
+                            // claimed for; if its side earns emissions it must have been credited
+                            // in proportion to its size (at the smaller of the share values seen)
+                            let claimed = yq.last_update == info.now as u64 && x.last_update >= 1681989983 && x.last_update < info.now as u64;
+                            let side_liab = w_(&x.liability_shares) >= one();
+                            let side_asset = !side_liab && w_(&x.asset_shares) >= one();
+                            let earns = (side_liab && bp.flags & 1 != 0 && bq.flags & 1 != 0) || (side_asset && bp.flags & 2 != 0 && bq.flags & 2 != 0);
+                            if claimed && earns && bp.emissions_rate == bq.emissions_rate {
+                                let sv = |b: &Bank| if side_liab { w_(&b.liability_share_value) } else { w_(&b.asset_share_value) };
+                                let shares = if side_liab { w_(&x.liability_shares) } else { w_(&x.asset_shares) };
+                                let low_amt = shares * if sv(bp) < sv(bq) { sv(bp) } else { sv(bq) };
+                                let rate = ru(bq.emissions_rate as u128);
+                                let exact = low_amt * ru(dt as u128) * &rate / (ri(31_536_000) * pow10(bq.mint_decimals as u32));
+                                // the program truncates amount/10^dec and the division by the year on the 2^-48 grid before multiplying by the rate
+                                low_bound += exact - (&rate * ri(4) + ri(8)) * ulp();
+                                low_n += 1;
+                            }
                         }
                     }
                 }
@@ -785,6 +822,19 @@ impl Mon {
                 let tol = (&bound + one()) * rq(1, 1_000_000) + ulp() * ri(64);
                 if drop > &bound + &tol {
                     self.r.violate("C19", &format!("C19/{}/emissions-credit-above-proportional-amount", info.kind.name()), format!("bank {}: credited {} bound {} (rate {})", bk, show(&drop), show(&bound), bq.emissions_rate));
+                }
+                // ... and not less: while the bank's budget is not exhausted (remaining > 0 afterwards
+                // means no claim was capped) every claimed-for earning position got its proportional share
+                if low_n > 0 && rem1.is_positive() {
+                    self.r.count("C19.emission_lower_bounds_checked");
+                    if side_counts(&info.accts, bk).1 > 0 {
+                        self.r.count("C19.emission_lower_bounds_checked_borrow_side");
+                    }
+                    let tol = (&low_bound + one()) * rq(1, 1_000_000);
+                    // credits that were paid out in the same instruction left `outstanding` again
+                    if &newly + &tol < low_bound {
+                        self.r.violate("C19", &format!("C19/{}/emissions-credit-below-proportional-amount", info.kind.name()), format!("bank {}: credited {} but size x time x rate gives at least {} (rate {}, {} position(s))", bk, show(&newly), show(&low_bound), bq.emissions_rate, low_n));
+                    }
                 }
                 self.r.distinct(&("emis", info.kind.name(), drop.is_positive(), paid.is_positive()));
             }
